@@ -886,6 +886,10 @@ class Airplane:
                 if wing_segment.is_main and (wing_segment.side == "right" or not wing_segment.has_mirror):
                     self.l_ref_lat += wing_segment.b*2.0
 
+        # Without a main wing, the reference area and lateral length have to be given
+        if self.S_w == 0.0 or self.l_ref_lat == 0.0:
+            raise IOError("No wing was specified as main for {0} so reference parameters cannot be determined.".format(self.name))
+
         # Longitudinal reference length
         try:
             if self.l_ref_lon == -1:
